@@ -163,6 +163,10 @@ func (in *Interp) exec(fr *frame, ins ssa.Instruction) {
 	case *ssa.Lookup:
 		fr.loc[x] = in.lookup(fr, x)
 	case *ssa.Range:
+		if sv, isStr := in.get(fr, x.X).(*StrV); isStr {
+			fr.loc[x] = &RangeIter{str: sv}
+			break
+		}
 		m, ok := in.get(fr, x.X).(*MapV)
 		if !ok {
 			in.unsupported("range over non-map")
@@ -192,6 +196,22 @@ func (in *Interp) exec(fr *frame, ins ssa.Instruction) {
 	case *ssa.Next:
 		it := in.get(fr, x.Iter).(*RangeIter)
 		kt := x.Type().(*types.Tuple)
+		if it.str != nil {
+			// range over a string: ASCII bytes only (one rune per byte); a byte >= 0x80
+			// would need UTF-8 decoding and ends the path as unsupported
+			n := in.strLenConst(it.str, "range over string")
+			if it.j >= n {
+				fr.loc[x] = TupleV{Bool(false), IntC(0), BV(32, 0)}
+				break
+			}
+			b := it.str.at(it.j)
+			if !in.branch(Cmp("bvult", b, BV(8, 0x80))) {
+				in.unsupported("range over a string with a non-ASCII byte")
+			}
+			fr.loc[x] = TupleV{Bool(true), IntC(int64(it.j)), ZExt(b, 32)}
+			it.j++
+			break
+		}
 		if it.pos != nil {
 			if it.j >= len(it.left) {
 				fr.loc[x] = TupleV{Bool(false), in.zero(kt.At(1).Type()), in.zero(kt.At(2).Type())}
@@ -399,6 +419,20 @@ func (in *Interp) binop(op token.Token, a, b Value, xt types.Type) Value {
 		if op == token.ADD {
 			n := zeroArr(8).Copy(IX(0), sa.node, sa.off, sa.len).Copy(sa.len, sb.node, sb.off, sb.len)
 			return &StrV{node: n, off: IX(0), len: Bin("bvadd", sa.len, sb.len)}
+		}
+		switch op {
+		case token.GTR:
+			return in.binop(token.LSS, b, a, xt)
+		case token.GEQ:
+			return in.binop(token.LEQ, b, a, xt)
+		case token.LSS, token.LEQ:
+			la, lb := in.strLenConst(sa, "string comparison"), in.strLenConst(sb, "string comparison")
+			res := Bool(la < lb || (op == token.LEQ && la == lb))
+			for i := min(la, lb) - 1; i >= 0; i-- {
+				x, y := sa.at(i), sb.at(i)
+				res = Or(Cmp("bvult", x, y), And(Eq(x, y), res))
+			}
+			return res
 		}
 		in.unsupported("string op %s", op)
 	}
